@@ -152,6 +152,20 @@ func runSel(sc *bufio.Scanner, out *bufio.Writer) {
 					b = 1
 				}
 				fmt.Fprintf(out, "match %d %d\n", b, cnt)
+			case "parse": // parse <hex of an arbitrary string>: labels.Parse itself
+				fmt.Fprintf(out, "parse %s\n", reqsTokExact(unhx(f[1])))
+			case "mkey": // mkey <hex of an arbitrary map key> <labels>: matchCIDRLabels on that key
+				node := &corev1.Node{ObjectMeta: metav1.ObjectMeta{Name: "n", Labels: parseLabels(f[2])}}
+				ok, cnt, err := ipam.VerifMatchCIDRLabels(node, unhx(f[1]))
+				if err != nil {
+					fmt.Fprintf(out, "mkey err\n")
+					return
+				}
+				b := 0
+				if ok {
+					b = 1
+				}
+				fmt.Fprintf(out, "mkey %d %d\n", b, cnt)
 			default:
 				fmt.Fprintf(out, "badcase\n")
 			}
